@@ -752,14 +752,26 @@ impl Prop for MasterScript {
             any::<bool>(),
             any::<[u8; 4]>(),
             prop_oneof![2 => Just(249u16), 1 => 249u16..=2048, 1 => Just(2048u16)],
-            (any::<bool>(), prop_oneof![3 => Just(false), 1 => Just(true)]),
+            (
+                any::<bool>(),
+                prop_oneof![3 => Just(false), 1 => Just(true)],
+            ),
             proptest::option::of(0u16..500),
             proptest::option::of(0u16..500),
             prop_oneof![2 => Just(0u16), 1 => 1u16..300],
             proptest::collection::vec(step, 1..n),
         )
             .prop_map(
-                |(discard, decode, tx, (startup, no_clock), poll_ms, keep_alive_ms, chunk, steps)| Case {
+                |(
+                    discard,
+                    decode,
+                    tx,
+                    (startup, no_clock),
+                    poll_ms,
+                    keep_alive_ms,
+                    chunk,
+                    steps,
+                )| Case {
                     discard,
                     decode,
                     tx,
